@@ -581,6 +581,26 @@ def _structural(op, args):
         a = P(args[0])
         if a.is_const():
             return a
+    if op == "sq":
+        # dropping a size-1 axis commutes with elementwise functions: sq(f(x)) = f(sq(x)); and with stacking along the leading
+        # axis when the dropped axis is counted from the end
+        a = P(args[0])
+        at = a.single_atom()
+        if isinstance(at, Exp):
+            return exp(app("sq", at.arg, *args[1:]))
+        if isinstance(at, App) and at.op in ("softplus", "sigmoid", "cos", "sin", "sqrt", "log", "abs", "tanh") and len(at.args) == 1:
+            return rebuild(at.op, [app("sq", at.args[0], *args[1:])])
+        if isinstance(at, App) and at.op == "stack0" and len(args) > 1 and isinstance(args[1], int) and args[1] < 0:
+            return stack0(*[app("sq", c, *args[1:]) for c in at.args])
+        _EW = ("softplus", "sigmoid", "cos", "sin", "sqrt", "log", "abs", "tanh")
+        if at is None and len(a.terms) == 1:
+            (mono, c), = a.terms.items()
+            if len(mono) >= 1 and all(isinstance(x, Exp) or (isinstance(x, App) and x.op in _EW and len(x.args) == 1) for x, _ in mono):
+                # a product of elementwise functions of tensors that all carry the dropped axis
+                out = const(c)
+                for x, pw in mono:
+                    out = out * powq(app("sq", P(x), *args[1:]), pw)
+                return out
     if op == "idx0":
         a = P(args[0])
         at = a.single_atom()
